@@ -452,3 +452,59 @@ package pbft
 //@   props C18 C08
 //@   aborts when [empty-message-confined-by-recover] len(bz) == 0
 //@   atcall ReadBinary assert [decode-is-size-limited] arg_lmt == maxConsensusMessageSize && arg_lmt > 0
+
+// ---------------------------------------------------------------------------------------------
+// write-ahead log (C07): log before handle, flush per record, height marker first; replay hands every complete
+// record to the same handlers in order, inside the replay-mode bracket
+
+//@ ghost gLogged Iface
+
+//@ func (*ConsensusState).receiveRoutine
+//@   props C07
+//@   requires cs != nil
+//@   orderonly
+//@   atcall Save set gLogged = arg_wmsg
+//@   atcall handleMsg assert [input-logged-before-it-is-handled] calls(Save) == calls(handleMsg) + calls(handleTimeout) + 1 && gLogged == box(arg_mi)
+//@   atcall handleTimeout assert [timeout-logged-before-it-is-handled] calls(Save) == calls(handleMsg) + calls(handleTimeout) + 1 && gLogged == box(arg_ti)
+//@   atcall Save assert [one-log-record-per-input] calls(Save) == calls(handleMsg) + calls(handleTimeout)
+//@   loop 0 invariant calls(Save) == calls(handleMsg) + calls(handleTimeout)
+
+//@ func (*WAL).Save
+//@   props C07
+//@   nosafety
+//@   atcall WriteLine assert [record-written-once] calls(WriteLine) == 0 && calls(Flush) == 0
+//@   atcall Flush assert [record-flushed-before-save-returns] calls(WriteLine) == 1 && calls(Flush) == 0
+//@   atcall writeHeight assert [height-marker-precedes-the-first-record-of-a-height] calls(WriteLine) == 0 && calls(writeHeight) == 0
+//@   ensures [nil-wal-logs-nothing] wal == nil ==> calls(WriteLine) == 0
+//@   ensures [written-means-flushed] calls(WriteLine) == calls(Flush)
+
+//@ func (*WAL).writeHeight
+//@   props C07
+//@   requires wal != nil
+//@   nosafety
+//@   atcall WriteLine assert [marker-written-once] calls(WriteLine) == 0 && calls(Flush) == 0
+//@   atcall Flush assert [marker-flushed] calls(WriteLine) == 1 && calls(Flush) == 0
+//@   ensures [marker-written-and-flushed] calls(WriteLine) == 1 && calls(Flush) == 1
+
+// only catchupReplay switches replay mode (structural check of the whole package)
+//@ writers ConsensusState.replayMode: catchupReplay
+//@   props C07
+
+// one log line: comment and empty lines are skipped, a line that does not decode is an error and reaches no handler,
+// a decoded record goes to exactly the handler the live receive loop uses
+//@ func (*ConsensusState).readReplayMessage
+//@   props C07
+//@   requires cs != nil
+//@   orderonly
+//@   atcall handleMsg assert [only-decoded-records-reach-the-message-handler] err == nil && len(msgBytes) != 0 && calls(handleMsg) == 0 && calls(handleTimeout) == 0 && calls(ReadJSON) == 1
+//@   atcall handleTimeout assert [only-decoded-records-reach-the-timeout-handler] err == nil && len(msgBytes) != 0 && calls(handleMsg) == 0 && calls(handleTimeout) == 0 && calls(ReadJSON) == 1
+//@   atcall ReadJSON assert [comment-and-empty-lines-are-not-decoded] len(msgBytes) != 0 && msgBytes[0] != 35
+//@   trusted-ensures cs.replayMode == old(cs.replayMode)
+
+//@ func (*ConsensusState).catchupReplay
+//@   props C07
+//@   requires cs != nil && cs.wal != nil
+//@   nosafety
+//@   atcall readReplayMessage assert [records-replayed-in-replay-mode-in-log-order] cs.replayMode && calls(readReplayMessage) == calls(ReadLine) - 1
+//@   ensures [replay-mode-bracket-closed] cs.replayMode == false
+//@   loop 0 invariant cs.replayMode && calls(readReplayMessage) == calls(ReadLine) && cs != nil
